@@ -9,7 +9,7 @@
   so the theorems cover in particular every history a Go program can produce (`runRefs_sound`).
 
   Schedules: every operation is one atomic step (one `atomic.Int64.Add`, or one mutex section followed by
-  formatting of a local). `all_ops_atomic` & co. below check the syntactic part of that claim on facts
+  formatting of a local). `all_ops_atomic` & co. in Props/C14Locks.lean check the syntactic part of that claim on facts
   regenerated from the Go source on every run (T2); that lock sections and atomic adds linearise is the
   Go memory model (trusted). A concurrent execution is then equivalent to one of the sequential histories
   quantified over here.
@@ -19,7 +19,6 @@
 -/
 import RdfModel.Props.C14Defs
 import RdfModel.Proofs.C14
-import RdfModel.Gen.LockFacts
 namespace RdfModel.C14
 open RdfModel.BN
 
@@ -164,48 +163,7 @@ theorem runRefs_sound (U : Nat → Bytes) (d : Nat) (rops : List ROp) (tr : List
 /-- the driver's UUID texts are pairwise distinct (so `hU` is satisfiable by what the driver runs) -/
 theorem driverU_injective : Function.Injective driverU := Proofs.C14.driverU_inj
 
-/-! ## Atomicity of every operation (T2 facts regenerated from the Go source) -/
-
-open Gen.LockFacts in
-/-- A method is one atomic step if: shared maps are only touched under the receiver's mutex; the mutex is
-    released on every return path; counters are only touched by `Add(1)`, at most once; no receiver field
-    is assigned; and a struct holding a map/mutex is never used through a value receiver. -/
-def methodAtomic (m : Gen.LockFacts.MethodFact) : Bool :=
-  m.mapGuarded == .yes && m.lockBalanced == .yes && m.atomicOnlyAdd == .yes && m.fieldWrites == 0 &&
-  decide (m.atomicUses ≤ 1) && (m.ptrRecv || !m.needsPtr) && (m.mapAccesses == 0 || decide (m.lockOps ≥ 2))
-
-theorem all_ops_atomic : ∀ m ∈ Gen.LockFacts.methods, methodAtomic m = true := by decide
-
-/-- Hand-written expectation: the methods the model treats as operations exist, with the expected shape
-    `(receiver, method, uses a mutex-guarded map, number of atomic Add(1))`. -/
-def expectedMethods : List (String × String × Bool × Nat) :=
-  [ ("bnF", "NewBlankNode", false, 1),
-    ("defaultBlankNodeFactory", "NewBlankNode", false, 1),
-    ("bnStringF", "NewBlankNode", false, 0),
-    ("bnStringF", "NewStringBlankNode", false, 0),
-    ("bnStringF", "GetStringProvider", false, 0),
-    ("stringIdentifierProvider", "GetBlankNodeString", false, 0),
-    ("int64StringProvider", "GetBlankNodeString", true, 1),
-    ("uuidStringProvider", "GetBlankNodeString", true, 0),
-    ("factoryMapper", "MapBlankNode", true, 0),
-    ("bn", "EqualsBlankNodeIdentifier", false, 0),
-    ("bnDefault", "EqualsBlankNodeIdentifier", false, 0),
-    ("bnString", "EqualsBlankNodeIdentifier", false, 0) ]
-
-def shapeOf (m : Gen.LockFacts.MethodFact) : String × String × Bool × Nat :=
-  (m.recv, m.name, decide (m.mapAccesses > 0), m.atomicUses)
-
-/-- exactly the expected methods, each with the expected shape (a new method, or a counter that is no
-    longer an atomic `Add(1)`, breaks this) -/
-theorem methods_as_expected :
-    (Gen.LockFacts.methods.map shapeOf).all (· ∈ expectedMethods) = true ∧
-    expectedMethods.all (· ∈ Gen.LockFacts.methods.map shapeOf) = true := by decide
-
-/-- every struct that has a map field has a mutex field; no constructor-external access to shared fields -/
-theorem maps_have_mutex :
-    (Gen.LockFacts.fields.all fun f => f.kind != "map" ||
-      Gen.LockFacts.fields.any fun g => g.struct == f.struct && g.kind == "mutex") = true ∧
-    Gen.LockFacts.foreignAccesses = 0 := by decide
+/-! ## Atomicity of every operation: see Props/C14Locks.lean (T2 facts regenerated from the Go source) -/
 
 /-! ## Non-vacuity: concrete histories satisfying the hypotheses -/
 
